@@ -19,6 +19,7 @@ EXTENDS ValueMapImplOps, TLC, Json
 CONSTANTS TMin, TMax, Pts,     \* abstract type and the points entries use
           MaxLen,
           FixTrunc, FixGuard, FixOct0,   \* BOOLEAN, see ValueMapImplOps
+          FixSkip, FixUncl,              \* BOOLEAN, see ValueMapImplOps
           Emit,                          \* BOOLEAN
           WithBad                        \* BOOLEAN: BAD / oct0 / reversed entries
 
@@ -27,12 +28,14 @@ VARIABLES map,     \* the ValueMap array built so far
                    \* which vlib.simulate_behaviours parses)
 vars == <<map, len>>
 
-Flags == [trunc |-> FixTrunc, guard |-> FixGuard, oct0 |-> FixOct0]
+Flags == [trunc |-> FixTrunc, guard |-> FixGuard, oct0 |-> FixOct0,
+          skip |-> FixSkip, uncl |-> FixUncl]
 
 (* cfg files cannot contain negative numbers *)
 PtsU4 == {0, 1, 3, 4, 5, 15}
 PtsS4 == {-8, -7, 3, 4, 5, 7}
 PtsU4s == {0, 3, 4, 15}
+PtsU4t == {3, 5}
 MinS4 == -8
 
 Ent(k, lo, hi, lopen, hopen, nt) ==
@@ -68,6 +71,17 @@ Vectors(m) ==
   \cup (IF m = << >> THEN {Vec(m, FALSE, TRUE, q, d) : q \in 0..4, d \in BOOLEAN}
         ELSE {})
 
+(* the empty string as a Values string: at any one position of the Values  *)
+(* array (emp = 0: nowhere) and / or as values_default                     *)
+VecE(m, nq, hasdflt, emp, dflt) ==
+  [Vec(m, TRUE, TRUE, nq, hasdflt) EXCEPT
+     !.vals = [i \in 1..nq |-> IF i = emp THEN "" ELSE ValName[i]],
+     !.dflt = dflt]
+VectorsE(m) ==
+  {VecE(m, q, d, emp, df) :
+     q \in {x \in {Len(m) - 1, Len(m), Len(m) + 1} : x >= 0},
+     d \in BOOLEAN, emp \in 0..(Len(m) + 1), df \in {"dflt", ""}}
+
 AllV == [j \in 1..(TMax - TMin + 1) |-> TMin + j - 1]
 Queries(e) == e.vals \o <<e.dflt, "nosuch">>
 
@@ -78,8 +92,8 @@ Next == /\ len < MaxLen
 Spec == Init /\ [][Next]_vars
 
 (* the code-shaped machine's complete observation satisfies every clause *)
-ImplEqualsClaims ==
-  \A e \in Vectors(map) :
+ImplEqualsOn(V) ==
+  \A e \in V :
      LET o == ImplEvent(e, Flags, AllV, Queries(e))
          f == Fails(0, o) IN
      \/ f = {}
@@ -87,6 +101,9 @@ ImplEqualsClaims ==
                                 nmap |-> Len(e.map), nvals |-> Len(e.vals),
                                 hasdflt |-> e.hasdflt, ctor |-> o.ctor]>>)
         /\ FALSE
+ImplEqualsClaims == ImplEqualsOn(Vectors(map))
+(* ... also when Values strings / values_default are the empty string *)
+ImplEqualsClaimsE == ImplEqualsOn(VectorsE(map))
 
 (* the requirement is satisfiable: the direct reading of the statement    *)
 (* (first admissible resolution, first admissible claimant, every entry   *)
@@ -121,4 +138,8 @@ SegmentLemma ==
           <=> (\A v \in ProbeBP(map, rho, a, b) : r \in Claims(map, rho, vals, v))
 
 EmitInv == ~Emit \/ map = << >> \/ PrintT(<<"VEC", ToJson(map)>>)
+(* every array in which an open end stands next to a ".." run: all         *)
+(* neighbour combinations (array end / single / closed end / facing open   *)
+(* end behind the run) over the alphabet of the cfg                        *)
+EmitUInv == ~Emit \/ ~OpenNextToU(map) \/ PrintT(<<"VECU", ToJson(map)>>)
 =============================================================================
